@@ -292,6 +292,17 @@ def initLayer (P : Params) (mediaType : String) (payload : Bytes) : Option View 
   else if Gen.Fetch.dirMediaTypes.contains mediaType then some .dir
   else none
 
+/-- `Layer.Init` called directly with a description: the digest must parse, and
+    the filesystem media type needs a URI. -/
+def layerInit (P : Params) (digest : Bytes) (uriEmpty : Bool) (mediaType : String) (payload : Bytes) : Option View :=
+  match digestParse digest with
+  | none => none
+  | some _ =>
+    if Gen.Fetch.tarMediaTypes.contains mediaType then
+      (if P.tarOK payload then some (.tar payload) else none)
+    else if Gen.Fetch.dirMediaTypes.contains mediaType then (if uriEmpty then none else some .dir)
+    else none
+
 /-- `rc.Ref()` (after the `Swap` for a fresh file): bump the entry or create it. -/
 def Arena.ref : Arena → Bytes → Bytes → Arena
   | [], key, payload => [⟨key, payload, 1⟩]
